@@ -142,6 +142,8 @@ def pRender : PEv → Option String
   | .inl t id => some s!"T{t} exec {id}"
   | .runRet t id => some s!"T{t} run {id} -> ok"
   | .stopRet t => some s!"T{t} stop -> ok"
+  | .pass w x => some s!"T{w} pass {x.2}"
+  | .openRet t => some s!"T{t} open -> ok"
   | _ => none
 
 def pSys (top : Nat) : Sys PState where
@@ -163,6 +165,7 @@ def pSys (top : Nat) : Sys PState where
     | .wTest => "run(ThreadPool::runInThread:beforeRunningTest)"
     | .wTake => inWait ""
     | .wExec _ => "run"
+    | .wGate _ => "poll"
     | .stopNotify => "run[stop]"
     | .stopJoin i => s!"join(T{i + 1})[stop]"
     | .idle =>
@@ -170,6 +173,7 @@ def pSys (top : Nat) : Sys PState where
       | [] => "fin"
       | .run _ :: _ => if s.inline then "run(op)[run]" else inWait "[run]"
       | .stop :: _ => "mutex(m)[stop]"
+      | .open :: _ => "run(op)[open]"
 
 /-! ### the line protocol -/
 
@@ -178,11 +182,15 @@ inductive Kind where
 
 inductive AnyOp where
   | put (v : Nat) | take | drain | size | empty | full | capacity | wait | countDown | getCount | run (id : Nat) | stop
+  | openGate
 
 structure CaseDef where
   kind : Kind
   spurious : Bool := false
   threads : Array (List AnyOp) := #[]
+  /-- pool: ids of the tasks that wait for the gate / that open it -/
+  waits : List Nat := []
+  opens : List Nat := []
 
 /-- plain decimal, at most 9 digits, within [lo, hi] -/
 def parseInt (s : String) (lo hi : Nat) : Option Nat :=
@@ -195,13 +203,14 @@ def allowed : Kind → AnyOp → Bool
   | .bq, .put _ | .bq, .take | .bq, .drain | .bq, .size => true
   | .bbq _, .put _ | .bbq _, .take | .bbq _, .size | .bbq _, .empty | .bbq _, .full | .bbq _, .capacity => true
   | .latch _, .wait | .latch _, .countDown | .latch _, .getCount => true
-  | .pool _ _, .run _ | .pool _ _, .stop => true
+  | .pool _ _, .run _ | .pool _ _, .stop | .pool _ _, .openGate => true
   | _, _ => false
 
 def simpleOp : String → Option AnyOp
   | "take" => some .take | "drain" => some .drain | "size" => some .size | "empty" => some .empty
   | "full" => some .full | "capacity" => some .capacity | "wait" => some .wait
   | "countDown" => some .countDown | "getCount" => some .getCount | "stop" => some .stop
+  | "open" => some .openGate
   | _ => none
 
 def parseOps (k : Kind) : List String → Nat → Option (List AnyOp)
@@ -225,7 +234,7 @@ def toQ : AnyOp → Option QOp
 def toL : AnyOp → Option LOp
   | .wait => some .wait | .countDown => some .countDown | .getCount => some .getCount | _ => none
 def toP : AnyOp → Option POp
-  | .run id => some (.run id) | .stop => some .stop | _ => none
+  | .run id => some (.run id) | .stop => some .stop | .openGate => some .open | _ => none
 
 def runCase (c : CaseDef) (sched : List Nat) : Array String :=
   let nt := c.threads.size
@@ -239,7 +248,8 @@ def runCase (c : CaseDef) (sched : List Nat) : Array String :=
     (lSys nt).run c.spurious (linit (Int.ofNat n) prog sched) 0 #[] 0
   | .pool n maxq =>
     let prog : Nat → List POp := fun t => if t ≤ n then [] else ((c.threads.getD (t - n - 1) []).filterMap toP)
-    (pSys (n + nt)).run c.spurious (pinit n maxq prog sched) 0 #[] 0
+    let kind : Nat → TKind := fun id => if id ∈ c.waits then .waits else if id ∈ c.opens then .opens else .plain
+    (pSys (n + nt)).run c.spurious (pinit n maxq kind prog sched) 0 #[] 0
 
 def parseSchedule : List String → Option (List Nat)
   | [] => some []
@@ -267,6 +277,20 @@ def main (lines : Array String) : IO Unit := do
       match cur with
       | some c => cur := some { c with spurious := true }; ok := true
       | none => pure ()
+    | "waits" :: ids =>
+      match cur, parseSchedule ids with
+      | some c, some l =>
+        match c.kind with
+        | .pool _ _ => cur := some { c with waits := c.waits ++ l }; ok := true
+        | _ => pure ()
+      | _, _ => pure ()
+    | "opens" :: ids =>
+      match cur, parseSchedule ids with
+      | some c, some l =>
+        match c.kind with
+        | .pool _ _ => cur := some { c with opens := c.opens ++ l }; ok := true
+        | _ => pure ()
+      | _, _ => pure ()
     | "thread" :: k :: ops =>
       match cur with
       | some c =>
